@@ -526,7 +526,7 @@ def run(ctx):
         # predecessor's pending count unchanged and queue that predecessor a second time
         rule = 'C01.resolution-queue'
         flt = None
-        for bi, t, e in q.calls_named(f, 'filter'):
+        for bi, t, e in q.calls_named(f, 'filter') + q.calls_named(f, 'filter_map'):
             cf, agg = q.closure_of(lib, e[2][1]) if len(e[2]) > 1 else (None, None)
             if cf is not None and any(x[0] == 'field' and x[2] == DF['pending'] for bj in cf.reach for st in cf.blocks[bj]['stmts'] if st['s'] == 'assign' for x in facts.walk(cf.rvalue_expr(st['rv'], bj))):
                 flt = cf
@@ -550,6 +550,8 @@ def run(ctx):
                 kinds0.append('search')
             elif v0[0] == 'const':
                 kinds0.append('constant %s' % v0[1])
+            elif v0[0] == 'param' and f.locals[v0[1]]['ty'] == 'f64':
+                kinds0.append('constant (a number handed in: %s)' % (f.local_name(v0[1]) or v0[1]))
             else:
                 kinds0.append('?')
         if '?' in kinds0 and not any(k.startswith('constant') for k in kinds0):
